@@ -22,6 +22,8 @@ def run(ctx):
     rep.floor('derived exact operations', nd, 9)
     rep.floor('rescale primitives', nr, 4)
     nph = exact.power_helpers(rep, F)
+    npf = exact.pow_fits(ctx)
+    rep.floor('integer powers of ten checked for overflow', npf, 5)
     rep.floor('power-of-ten helpers', nph, 3)
     rep.extra['operator_functions'] = n
     rep.extra['macro_arms'] = arms
